@@ -152,6 +152,8 @@ func (g *Gateway) subscriptionHandler(w http.ResponseWriter, r *http.Request) {
 				return
 			}
 
+			applyVariableDefaults(operation, request)
+
 			planningContext := &planner.PlanningContext{
 				Request:    request,
 				Operation:  operation,
